@@ -42,14 +42,14 @@ PLAN["C03"] = dict(
     jobs=lambda t: [
         J("bulk", "native", ["c03", "--part", "bulk"], shards=8, budget_s=q(t, 20, 120)),
         J("bulk-asan", "asan", ["c03", "--part", "bulk"], shards=8, budget_s=q(t, 30, 180)),
-        J("held", "native", ["c03", "--part", "held", "--rounds", q(t, 500, 5000)], shards=8, budget_s=q(t, 35, 700), parallel=8),
+        J("held", "native", ["c03", "--part", "held", "--rounds", q(t, 1200, 8000)], shards=8, budget_s=q(t, 40, 900), parallel=8),
         J("held-asan", "asan", ["c03", "--part", "held", "--rounds", q(t, 60, 2000)], shards=8, budget_s=q(t, 40, 500), parallel=8),
     ] + miri_jobs_late(["list-mix4", "tree-samebin-mix4", "split-trees"], q(t, 4, 96), q(t, 1, 12)),
 )
 
 PLAN["C01"] = dict(
     level="exploration",
-    engines=["free-run + WGL per-key linearizability checker (native)", "serial token-passing scheduler: seeded, replayable schedules of small programs + the same checker (native)"],
+    engines=["free-run + WGL per-key linearizability checker (native)", "the same recorder and checker on an un-instrumented build of flurry (no hooks, no delays)", "serial token-passing scheduler: seeded, replayable schedules of small programs + the same checker (native)"],
     assumptions=[
         "tickets from one relaxed fetch_add counter taken before the call and after the return give a real-time order",
         "sub-histories of more than 256 calls or 2^21 search states are counted as unchecked, never as violations",
@@ -59,6 +59,7 @@ PLAN["C01"] = dict(
     jobs=lambda t: [
         J("freerun", "native", ["c01", "--rounds", q(t, 1200, 8000)], shards=q(t, 8, 12), budget_s=q(t, 35, 900), parallel=q(t, 8, 12)),
         J("serial", "native", ["c01", "--part", "serial", "--schedules", q(t, 6000, 120000)], shards=q(t, 8, 16), budget_s=q(t, 30, 600), parallel=q(t, 8, 16)),
+        J("plain", "plain", ["stress", "--oracle", "lin", "--rounds", q(t, 1500, 40000)], shards=8, budget_s=q(t, 25, 600), parallel=8),
     ],
 )
 
@@ -70,6 +71,7 @@ PLAN["C04"] = dict(
     miri_classes=["leak", "ub"],
     jobs=lambda t: [
         J("ledger", "native", ["c04", "--rounds", q(t, 1500, 8000)], shards=q(t, 8, 12), budget_s=q(t, 35, 900), parallel=q(t, 8, 12)),
+        J("plain", "plain", ["stress", "--oracle", "ledger", "--rounds", q(t, 1500, 40000)], shards=8, budget_s=q(t, 25, 600), parallel=8),
     ] + miri_jobs_late(["list-mix4", "tree-samebin-mix4", "tree-grow-from-0"], q(t, 4, 96), q(t, 1, 12)),
 )
 
@@ -80,6 +82,7 @@ PLAN["C05"] = dict(
     require={"quiescent_points_audited": 100, "points_after_multi_thread_resize": 3, "tree_bins_audited": 3},
     jobs=lambda t: [
         J("quiescent", "native", ["c05", "--rounds", q(t, 2500, 10000)], shards=q(t, 8, 12), budget_s=q(t, 35, 900), parallel=q(t, 8, 12)),
+        J("plain", "plain", ["stress", "--oracle", "agree", "--rounds", q(t, 1500, 40000)], shards=8, budget_s=q(t, 25, 600), parallel=8),
     ],
 )
 
@@ -213,17 +216,19 @@ def miri_jobs(names, seeds_each, shards_each):
 
 PLAN["C11"] = dict(
     level="exploration",
-    engines=["Miri (deadlock detection, weak-memory emulation, seeded scheduler) on litmus programs", "serial token-passing scheduler with logical deadlock / livelock verdicts (native)", "quiescent lock-state audit of the free-run rounds (C05) and the parked-writer scenario of C12"],
+    engines=["Miri (deadlock detection, weak-memory emulation, seeded scheduler) on litmus programs", "native tree-bin hammer with a confirmed blocked-state detector (thread asleep + no progress over two samples)", "serial token-passing scheduler with logical deadlock / livelock verdicts (native)", "quiescent lock-state audit of the free-run rounds (C05) and the parked-writer scenario of C12"],
     assumptions=[
         "liveness is restated as bounded progress: a finite program run by Miri's fair seeded scheduler ends, and no execution reaches a state in which every unfinished thread is blocked",
         "Miri explores one schedule per seed; quick is a smoke test, thorough the real exploration (the F6 lost wakeup needed seeds 16 and 131 of 384 on one program)",
     ],
     miri_classes=["deadlock"],
     require={},
-    require_prefix={"miri_seeds_": 8},
+    require_prefix={"miri_seeds_": 8, "hammer_writer_parks": 100, "plain_hammer_writer_calls": 10000},
     jobs=lambda t: miri_jobs(["tree-mix3", "tree-readers", "init-race", "grow"], q(t, 12, 256), q(t, 4, 16))
     + miri_jobs(["tree-samebin-mix4", "tree-grow-from-0", "list-mix4"], q(t, 4, 128), q(t, 1, 16))
-    + [J("serial", "native", ["c11", "--schedules", q(t, 6000, 120000)], shards=q(t, 8, 16), budget_s=q(t, 30, 600), parallel=q(t, 8, 16))]
+    + [J("serial", "native", ["c11", "--schedules", q(t, 6000, 120000)], shards=q(t, 8, 16), budget_s=q(t, 30, 600), parallel=q(t, 8, 16)),
+       J("hammer", "native", ["c11", "--part", "hammer", "--rounds", q(t, 40, 1500)], shards=4, budget_s=q(t, 35, 600), parallel=4, blocked_is_violation=True),
+       J("hammer-plain", "plain", ["hammer", "--rounds", q(t, 60, 3000)], shards=4, budget_s=q(t, 35, 600), parallel=4, blocked_is_violation=True)]
     + [J("f6-regression-seed16", "miri", LIT["tree-mix3"], shards=1, seeds=(16, 17), budget_s=90, absolute_seeds=True),
        J("f6-regression-seed131", "miri", LIT["tree-mix3"], shards=1, seeds=(131, 132), budget_s=90, absolute_seeds=True)],
 )
